@@ -432,6 +432,22 @@ def unit(n, d, c=1):
 
 
 def gen_pass(rng):
+    """One operation, or (one case in six) two operations of the same kind, patterns and element types but different shapes in
+    one module: whatever the scheduling pass remembers from the first must not leak into the second."""
+    c1 = _gen_pass_one(rng)
+    if rng.random() < 0.17:
+        for _ in range(40):
+            c2 = _gen_pass_one(rng)
+            if c2["kind"] == c1["kind"] and c2["patterns"] == c1["patterns"] and c2["consts"] == c1["consts"] and c2["elem_bytes"] == c1["elem_bytes"] and c2["bounds"] != c1["bounds"]:
+                c = dict(c1)
+                c["text"] = c1["text"] + c2["text"].replace("func.func @f(", "func.func @f2(")
+                c["multi"] = [list(c1["bounds"]), list(c2["bounds"])]
+                c["kind"] = c1["kind"] + "+same-kind-other-shape"
+                return c
+    return c1
+
+
+def _gen_pass_one(rng):
     """-> dict(form='pass', text, accelerator, kind, bounds, patterns (matrices), elem_bits)"""
     kind = rng.choices(["matmul", "matmul_t", "bmm", "conv", "gemm_add", "rescale", "rescale1d", "alu", "alu_nd", "alu_bcast"], [0.2, 0.1, 0.08, 0.12, 0.08, 0.1, 0.04, 0.12, 0.1, 0.06])[0]
 
